@@ -1,3 +1,23 @@
-From Flodym Require Import Base.ND.
-Theorem placeholder : True. Proof. exact I. Qed.
-Print Assumptions placeholder.
+(* C15 — operations never modify their inputs, and results are independent objects.
+   Statements only; proofs in Proofs/HeapProofs.v. *)
+From Coq Require Import List.
+Import ListNotations.
+From Flodym Require Import Model.Heap Proofs.HeapProofs.
+
+(* Every operation that is not explicitly in place only APPENDS to the heap: all buffers (the
+   values of every existing array, views included) and all array objects (their dimension sets)
+   that existed before are still there, unchanged — for every heap, every operation, and also for
+   the behaviour variants before the repairs. *)
+Theorem C15_inputs_never_modified :
+  forall vr h o, in_place o = false -> extends h (fst (step vr h o)).
+Proof. exact op_frame. Qed.
+Print Assumptions C15_inputs_never_modified.
+
+(* The result of copy, full_like, arithmetic, unary operators, cast_to, get_shares_over, cumsum and
+   slice reads lives in a buffer that did not exist before the call: no earlier array shares
+   memory with it, so writing into it cannot change any source, and vice versa. *)
+Theorem C15_results_are_fresh :
+  forall h o h', independent_result o = true -> step current h o = (h', Done) ->
+  arrs h' = arrs h \/ exists a, arrs h' = arrs h ++ [a] /\ a_buf a = length (bufs h).
+Proof. exact result_fresh. Qed.
+Print Assumptions C15_results_are_fresh.
